@@ -621,6 +621,8 @@ def run(prop, tier):
     S0 = base_sheets()
     records, index = [], {}
     cov["library_bases"] = sorted(libs)
+    featcases = [p for p in pairs if p["mutation"] in ("databook_interaction_missing_values", "databook_timed_parameter_varies")]
+    pairs = [p for p in pairs if p not in featcases]
     for rid, p in enumerate(pairs):
         if p["base"] in libs:
             outcome, runnable, detail = try_lib_case(at, libs[p["base"]][0], libs[p["base"]][1], libs[p["base"]][2], p["mutation"])
@@ -653,6 +655,36 @@ def run(prop, tier):
             outcome, runnable, detail = "accepted", False, "blank databook: %s: %s" % (type(ex).__name__, str(ex)[:200])
         records.append(dict(id=rid, verdict="accept", outcome=outcome, runnable=bool(runnable)))
         index[rid] = dict(base="lib_" + name, mutation="blank_databook_reads_back", verdict="accept", outcome=outcome, runnable=runnable, detail=detail)
+        rid += 1
+    # databook defects that need structure the generated base lacks (rule DataComplete: the databook holds every required value in the
+    # required form): an interaction whose values are missing (library combined), a timed duration that varies over time (sir_vaccine)
+    for fc in featcases:
+        name, mut = fc["base"][4:], fc["mutation"]
+        try:
+            Fw = at.ProjectFramework("%s/%s_framework.xlsx" % (atomica.LIBRARY_PATH, name))
+            D = at.ProjectData.from_spreadsheet("%s/%s_databook.xlsx" % (atomica.LIBRARY_PATH, name), Fw)
+            if mut == "databook_interaction_missing_values":
+                ts = list(D.interpops[0].ts.values())[0]
+                ts.t, ts.vals, ts.assumption = [], [], None
+            else:
+                tp = [p_ for p_ in Fw.pars.index if Fw.pars.at[p_, "timed"] == "y"][0]
+                D.tdve[tp].tvec = np.array(D.tvec, dtype=float)
+                ts = list(D.tdve[tp].ts.values())[0]
+                v0 = float(ts.assumption if ts.assumption is not None else ts.vals[0])
+                ts.assumption = None
+                ts.t, ts.vals = [float(D.tvec[0]), float(D.tvec[-1])], [v0, v0 * 2]
+            ss = D.to_spreadsheet()
+        except Exception as ex:
+            V.note_drift("library databook %s could not be prepared for %s: %s" % (name, mut, str(ex)[:120]))
+            continue
+        try:
+            P_ = at.Project(framework=Fw, databook=ss, do_run=False)
+            P_.run_sim(P_.parsets[0], store_results=False)
+            outcome, runnable, detail = "accepted", True, ""
+        except Exception as ex:
+            outcome, runnable, detail = ("rejected" if dedicated(ex) else "error"), False, "databook: %s: %s" % (type(ex).__name__, str(ex)[:200])
+        records.append(dict(id=rid, verdict=fc["verdict"], outcome=outcome, runnable=bool(runnable)))
+        index[rid] = dict(base="lib_" + name, mutation=mut, verdict=fc["verdict"], outcome=outcome, runnable=runnable, detail=detail)
         rid += 1
     # valid library files must be accepted and runnable too (environment permitting)
     bad, states = C.validate_batch(["ValidateTrace"], "ValidateTrace", records, chunks=1)
